@@ -827,3 +827,89 @@ VARIANTS += [
               "\tif verifierOptions.RevocationClient != nil {\n\t\tv.revocationClient = verifierOptions.RevocationClient\n\t}\n\treturn v.useBuiltinCodeSigningValidator()\n}\n\n" +
               "func (v *verifier) useBuiltinCodeSigningValidator() error {\n\tbuiltin, err := " + _DEF + "\n\tif err != nil {\n\t\treturn err\n\t}\n\tv.revocationCodeSigningValidator = builtin\n\treturn nil\n}\n")]),
 ]
+
+# class H: the store of the verifier field sits in a helper (constructor/<fn> composed through the helper)
+# constructor/<fn> is decided on "store points": a direct store of a non-nil value, the success edge / the forwarding
+# return of a call of a module function every success exit of which has passed a store point of its own, the store of
+# a helper's result that is non-nil on every success exit of the helper.
+_SR_ARMS = ("\tif verifierOptions.RevocationCodeSigningValidator != nil {\n\t\tv.revocationCodeSigningValidator = verifierOptions.RevocationCodeSigningValidator\n\t\treturn nil\n\t}\n" +
+            "\tif verifierOptions.RevocationClient != nil {\n\t\tv.revocationClient = verifierOptions.RevocationClient\n\t\treturn nil\n\t}\n")
+def _builtin_method(body=None, name='useBuiltinCodeSigningValidator', sig='error'):
+    body = body or ("\tbuiltin, err := " + _DEF + "\n\tif err != nil {\n\t\treturn err\n\t}\n\tv.revocationCodeSigningValidator = builtin\n\treturn nil\n")
+    return "\nfunc (v *verifier) %s() %s {\n%s}\n" % (name, sig, body)
+def _setter_with_method(call="\treturn v.useBuiltinCodeSigningValidator()\n", arms=_SR_ARMS, **kw):
+    return [(V, _SR_TAIL, arms + call + "}\n" + _builtin_method(**kw))]
+_CHECKED = "\tif err := v.useBuiltinCodeSigningValidator(); err != nil {\n\t\treturn err\n\t}\n\treturn nil\n"
+_SWITCH_ARMS = ("\tswitch {\n\tcase verifierOptions.RevocationCodeSigningValidator != nil:\n\t\tv.revocationCodeSigningValidator = verifierOptions.RevocationCodeSigningValidator\n" +
+                "\tcase verifierOptions.RevocationClient != nil:\n\t\tv.revocationClient = verifierOptions.RevocationClient\n\tdefault:\n%s\t}\n%s")
+_B_OK = "\tbuiltin, err := " + _DEF + "\n\tif err != nil {\n\t\treturn err\n\t}\n"
+# the whole choice is made by a helper that returns the chosen pair; the caller stores both
+def _choose(ret_default="\treturn builtin, nil, nil\n", caller_check="\tif err != nil {\n\t\treturn err\n\t}\n", cs_field='revocationCodeSigningValidator',
+            client_arm="\tif given.RevocationClient != nil {\n\t\treturn nil, given.RevocationClient, nil\n\t}\n", on_err="\t\treturn nil, nil, err\n"):
+    return [(V, _SR_TAIL, "\tchosen, legacy, err := chooseCodeSigningRevocation(verifierOptions)\n" + caller_check +
+             "\tv.%s = chosen\n\tv.revocationClient = legacy\n\treturn nil\n}\n\n" % cs_field +
+             "func chooseCodeSigningRevocation(given VerifierOptions) (revocation.Validator, revocation.Revocation, error) {\n" +
+             "\tif given.RevocationCodeSigningValidator != nil {\n\t\treturn given.RevocationCodeSigningValidator, nil, nil\n\t}\n" + client_arm +
+             "\tbuiltin, err := " + _DEF + "\n\tif err != nil {\n" + on_err + "\t}\n" + ret_default + "}\n")]
+# the default validator is returned by a helper that checks the constructor's error itself
+def _default_value_helper(ret="\treturn builtin, nil\n", caller_check="\tif err != nil {\n\t\treturn err\n\t}\n", field='revocationCodeSigningValidator'):
+    return [(V, _SR_TAIL, _SR_ARMS + "\tfallback, err := builtinCodeSigningValidator()\n" + caller_check + "\tv.%s = fallback\n\treturn nil\n}\n\n" % field +
+             "func builtinCodeSigningValidator() (revocation.Validator, error) {\n\tbuiltin, err := " + _DEF + "\n\tif err != nil {\n\t\treturn nil, err\n\t}\n" + ret + "}\n")]
+# the caller's choice is adopted by a boolean helper
+def _adopt(ret_client="\t\treturn true\n", test="v.adoptCallerRevocation(verifierOptions)"):
+    return [(V, _SR_TAIL, "\tif " + test + " {\n\t\treturn nil\n\t}\n" + _B_OK + "\tv.revocationCodeSigningValidator = builtin\n\treturn nil\n}\n\n" +
+             "func (v *verifier) adoptCallerRevocation(given VerifierOptions) bool {\n\tif given.RevocationCodeSigningValidator != nil {\n\t\tv.revocationCodeSigningValidator = given.RevocationCodeSigningValidator\n\t\treturn true\n\t}\n" +
+             "\tif given.RevocationClient != nil {\n\t\tv.revocationClient = given.RevocationClient\n" + ret_client + "\t}\n\treturn false\n}\n")]
+_WHY_H = 'a success exit of the setter that runs through the helper call is a success exit of the helper, and every success exit of the helper has stored a non-nil validator into the verifier it was handed'
+VARIANTS += [
+ dict(name='benign-setter-default-stored-by-helper-method-tail-call', expect='silent', edits=_setter_with_method(), why=_WHY_H),
+ dict(name='benign-setter-default-stored-by-helper-method-error-checked', expect='silent', edits=_setter_with_method(call=_CHECKED), why=_WHY_H),
+ dict(name='benign-setter-switch-default-arm-calls-helper-method', expect='silent',
+      edits=_setter_with_method(arms='', call=_SWITCH_ARMS % ("\t\treturn v.useBuiltinCodeSigningValidator()\n", "\treturn nil\n")), why=_WHY_H),
+ dict(name='benign-setter-switch-single-exit-error-local', expect='silent',
+      edits=_setter_with_method(arms='', call="\tvar failure error\n" + _SWITCH_ARMS % ("\t\tfailure = v.useBuiltinCodeSigningValidator()\n", "\treturn failure\n")),
+      why='the single return forwards, on the edge from the default arm, the error of the helper call; on the other edges it is nil after a direct store'),
+ dict(name='benign-setter-switch-on-true-with-init', expect='silent',
+      edits=[(V, _SR_TAIL, "\tswitch chosen, legacy := verifierOptions.RevocationCodeSigningValidator, verifierOptions.RevocationClient; {\n\tcase chosen != nil:\n\t\tv.revocationCodeSigningValidator = chosen\n\t\treturn nil\n" +
+              "\tcase legacy != nil:\n\t\tv.revocationClient = legacy\n\t\treturn nil\n\t}\n" + _B_OK + "\tv.revocationCodeSigningValidator = builtin\n\treturn nil\n}\n")],
+      why='switch arms that return; the default is stored after the switch'),
+ dict(name='benign-setter-helper-method-two-levels', expect='silent',
+      edits=[(V, _SR_TAIL, _SR_ARMS + "\treturn v.installDefaults()\n}\n\nfunc (v *verifier) installDefaults() error {\n\tif err := v.useBuiltinCodeSigningValidator(); err != nil {\n\t\treturn fmt.Errorf(\"default revocation validator: %w\", err)\n\t}\n\treturn nil\n}\n" + _builtin_method())],
+      why='composed twice: the middle helper succeeds only through the success edge of the storing helper'),
+ dict(name='benign-setter-default-value-from-checking-helper', expect='silent', edits=_default_value_helper(),
+      why='every success exit of the helper returns the constructor\'s value after its error was found nil; the caller stores it after the helper\'s error was found nil'),
+ dict(name='benign-setter-choice-returned-by-helper', expect='silent', edits=_choose(),
+      why='on every success exit of the helper one of the two values is non-nil; the caller stores both after the error check'),
+ dict(name='benign-setter-caller-choice-adopted-by-bool-helper', expect='silent', edits=_adopt(),
+      why='every exit of the helper that returns true has stored a non-nil field; the setter returns early only on the true edge'),
+ # broken counterparts
+ dict(name='setter-helper-method-succeeds-without-storing', expect='flagged(constructor/)',
+      edits=_setter_with_method(body="\tbuiltin, err := " + _DEF + "\n\tif err != nil {\n\t\treturn nil\n\t}\n\tv.revocationCodeSigningValidator = builtin\n\treturn nil\n")),
+ dict(name='setter-helper-method-stores-only-when-asked', expect='flagged(constructor/)',
+      edits=_setter_with_method(body="\tif v.pluginManager == nil {\n\t\treturn nil\n\t}\n" + _B_OK + "\tv.revocationCodeSigningValidator = builtin\n\treturn nil\n")),
+ dict(name='setter-helper-method-error-ignored', expect='flagged(constructor/)',
+      edits=_setter_with_method(call="\t_ = v.useBuiltinCodeSigningValidator()\n\treturn nil\n")),
+ dict(name='setter-helper-method-error-logged-not-returned', expect='flagged(constructor/)',
+      edits=_setter_with_method(call="\tif err := v.useBuiltinCodeSigningValidator(); err != nil {\n\t\tlog.GetLogger(context.Background()).Warn(err)\n\t}\n\treturn nil\n")),
+ dict(name='setter-helper-method-stores-timestamping-field', expect='flagged(constructor/)',
+      edits=_setter_with_method(body=_B_OK + "\tv.revocationTimestampingValidator = builtin\n\treturn nil\n")),
+ dict(name='setter-helper-method-stores-into-another-verifier', expect='flagged(constructor/)',
+      edits=_setter_with_method(body=_B_OK + "\tother := &verifier{}\n\tother.revocationCodeSigningValidator = builtin\n\treturn nil\n")),
+ dict(name='setter-switch-default-arm-forgets-helper', expect='flagged(constructor/)',
+      edits=_setter_with_method(arms='', call=_SWITCH_ARMS % ("\t\tbreak\n", "\treturn nil\n"))),
+ dict(name='setter-switch-single-exit-helper-error-dropped', expect='flagged(constructor/)',
+      edits=_setter_with_method(arms='', call="\tvar failure error\n" + _SWITCH_ARMS % ("\t\t_ = v.useBuiltinCodeSigningValidator()\n", "\treturn failure\n"))),
+ dict(name='setter-two-levels-middle-helper-swallows-error', expect='flagged(constructor/)',
+      edits=[(V, _SR_TAIL, _SR_ARMS + "\treturn v.installDefaults()\n}\n\nfunc (v *verifier) installDefaults() error {\n\tif err := v.useBuiltinCodeSigningValidator(); err != nil {\n\t\tlog.GetLogger(context.Background()).Warn(err)\n\t}\n\treturn nil\n}\n" + _builtin_method())]),
+ dict(name='setter-default-value-helper-result-stored-unchecked', expect='flagged(constructor/)', edits=_default_value_helper(caller_check="\t_ = err\n")),
+ dict(name='setter-default-value-helper-may-return-nil-nil', expect='flagged(constructor/)',
+      edits=_default_value_helper(ret="\tif time.Now().IsZero() {\n\t\treturn nil, nil\n\t}\n\treturn builtin, nil\n")),
+ dict(name='setter-default-value-helper-stored-into-timestamping-field', expect='flagged(constructor/)', edits=_default_value_helper(field='revocationTimestampingValidator')),
+ dict(name='setter-choice-helper-result-stored-unchecked', expect='flagged(constructor/)', edits=_choose(caller_check="\t_ = err\n")),
+ dict(name='setter-choice-helper-default-arm-returns-nothing', expect='flagged(constructor/)', edits=_choose(ret_default="\t_ = builtin\n\treturn nil, nil, nil\n")),
+ dict(name='setter-choice-helper-swallows-constructor-error', expect='flagged(constructor/)', edits=_choose(on_err="\t\treturn nil, nil, nil\n")),
+ dict(name='setter-choice-stored-into-timestamping-field', expect='flagged(constructor/)', edits=_choose(cs_field='revocationTimestampingValidator')),
+ dict(name='setter-bool-helper-says-true-without-storing-client', expect='flagged(constructor/)',
+      edits=[(e[0], e[1], e[2].replace("\t\tv.revocationClient = given.RevocationClient\n", "")) for e in _adopt()]),
+ dict(name='setter-bool-helper-result-inverted', expect='flagged(constructor/)', edits=_adopt(test="!v.adoptCallerRevocation(verifierOptions)")),
+]
